@@ -33,7 +33,7 @@ KINDS = ["unary", "ra", "npscalar", "pyscalar", "0d", "col", "collist", "bad_tot
 FLOOR_TAGS = ["k:" + k for k in KINDS] + ["side:L", "side:R", "spelling:operator", "spelling:ufunc", "kind:b", "kind:i", "kind:u", "kind:f",
                                            "v:small", "v:extreme", "v:nonfinite", "norows", "allempty", "e-first", "e-last", "e-mid", "e-consec", "e-none", "onerow-col"]
 FLOOR_MONITORS = ["c04:compare", "c04:must-refuse", "c04:operands-unchanged", "inv:ragged"]
-N_RANDOM = {"quick": 14000, "thorough": 600000}
+N_RANDOM = {"quick": 42000, "thorough": 600000}
 PYSCALARS = [2, 3, -1, 0, 2.5, True, False, 300, -129, 1e10]
 
 
